@@ -166,6 +166,9 @@ def c02 (v : StepView) : Verdict :=
           let rel := p.drop (layerDir v.pre a0).length
           let np := layerDir v.pre a1 ++ rel
           if pathBase p == b!"layerconfig" then Fs.lexists v.post.fs np
+          -- layercake's own temporary file (left by an earlier interrupted rewrite) is consumed
+          -- by the rewrite rename performs
+          else if pathBase p == b!"layerconfig.new" then true
           else match Fs.get v.pre.fs p, Fs.get v.post.fs np with
             | some x, some y => x == y
             | _, _ => false
